@@ -2,6 +2,7 @@
 //! Usage: hcverif <C01..C15> <quick|thorough> | --replay <file> | --replay-case <ID> <json>
 
 #![allow(dead_code)]
+mod alter;
 mod drv;
 mod env;
 mod explore;
@@ -34,6 +35,7 @@ fn props() -> Vec<PropDef> {
         p!("C01", "model_checking", c01),
         p!("C02", "fault_enumeration", c02),
         p!("C03", "model_checking", c03),
+        p!("C04", "exploration", c04),
         p!("C07", "fault_enumeration", c07),
         p!("C08", "exploration", c08),
         p!("C10", "fault_enumeration", c10),
